@@ -212,8 +212,8 @@ for (h, n) in ((3, 2), (4, 2), (4, 3), (5, 3), (6, 3), (6, 4)):
             bound = "ASCII haystack %d, needle %d, %s, %s" % (h, n, CFGNAME[k], ARMNAME[arm])
             # each of these takes 3-9 min and 4-8 GB: the quick tier keeps the smallest shape of every
             # code path plus the (4,3) decisions (smallest shape with a letter-free needle prefix of 2)
-            dec_tier = "quick" if ((h, n) == (3, 2) and k == 0) or ((h, n) == (4, 3) and (k == 0 or arm == 3)) else "thorough"
-            wit_tier = "quick" if (h, n) == (3, 2) and k == 0 else "thorough"
+            dec_tier = "quick" if ((h, n) == (3, 2) and k == 0) or ((h, n) == (4, 3) and k == 0 and arm == 3) else "thorough"
+            wit_tier = "quick" if (h, n) == (3, 2) and k == 0 and arm in (0, 2) else "thorough"
             tag = "h%d-n%d-k%d-a%d" % (h, n, k, arm)
             UC("c05-sub-ascii-dec-" + tag, "exact", "sub_ascii_decision::<%d,%d,%d,%d>()" % (h, n, k, arm), {"C05": dec_tier, "C10": dec_tier}, "bounded", EXACT_FNS[1:3],
                "substring_match_ascii: Some <=> the needle occurs contiguously in the normalised haystack", unwind=max(h + 3, 7), bound=bound, cost=6)
@@ -402,15 +402,15 @@ for L in (1, 2, 3, 4, 5):
        "Atom::parse on every ASCII string of %d bytes: negation, kind markers, escaped markers, escaped trailing dollar and the text handed to new_inner follow the documented grammar (new_inner replaced by a stub recording its arguments)" % L,
        unwind=8, bound="all ASCII strings of exactly %d bytes (parse inspects at most the first two and last two bytes)" % L, cost=3, stubs=PARSE_STUB)
 NI_STUBS = CHAR_STUBS + [("crate::chars::is_upper_case", "crate::chars::verif_charmodel::model_is_upper")]
-for L in (2, 3):
+for pos in (0, 1, 2):
     for case in (1, 2):
         for esc in (True, False):
-            if not esc and L == 3:
+            if not esc and pos != 0:
                 continue
-            UC("c14-new-inner-unicode-l%d-c%d-%s" % (L, case, "esc" if esc else "noesc"), "pattern",
-               "new_inner_unicode::<%d,%d,true,%s>()" % (L, case, "true" if esc else "false"), {"C14": "quick"}, "bounded", ["pattern::Atom::new_inner (code-point branch)"],
-               "Atom::new_inner on %d model-domain characters (>= 1 non-ASCII), CaseMatching::%s, Normalization::Smart, escape_whitespace=%s: needle == unescaped text (folded under Ignore), smart case / smart normalisation flags as documented" % (L, {1: "Ignore", 2: "Smart"}[case], esc),
-               unwind=12, bound="%d characters from the model domain (ASCII + 16 non-ASCII); unicode-segmentation feature OFF; char-level functions = model table" % L, cost=8, timeout=1500, stubs=NI_STUBS, features=NOSEG)
+            UC("c14-new-inner-unicode-p%d-c%d-%s" % (pos, case, "esc" if esc else "noesc"), "pattern",
+               "new_inner_unicode::<%d,%d,true,%s>()" % (pos, case, "true" if esc else "false"), {"C14": "quick"}, "bounded", ["pattern::Atom::new_inner (code-point branch)"],
+               "Atom::new_inner on 3 characters (two symbolic ASCII + one of {ä Ä ß é É à} at position %d), CaseMatching::%s, Normalization::Smart, escape_whitespace=%s: needle == unescaped text (folded under Ignore), smart case / smart normalisation flags as documented" % (pos, {1: "Ignore", 2: "Smart"}[case], esc),
+               unwind=12, bound="3 characters, one non-ASCII from the model domain; unicode-segmentation feature OFF; char-level functions = model table", cost=8, timeout=1500, stubs=NI_STUBS, features=NOSEG)
 for L in (2, 3, 4):
     UC("c14-split-atoms-%d" % L, "pattern", "split_atoms::<%d>()" % L, {"C14": "quick" if L <= 3 else "thorough"}, "bounded", ["pattern::pattern_atoms"],
        "pattern_atoms on every ASCII string of %d bytes: split at every whitespace not preceded by a backslash and nowhere else; pieces are consecutive slices" % L,
